@@ -5,7 +5,7 @@
    on what [mid] returns, which is why rounding or overflow of the mid-lines
    cannot lose a segment. *)
 From Coq Require Import Sorting.Permutation.
-From GJ Require Import Base Kernel Series SeriesSpec Index IndexExec QTreeProofs RTreeProofs CodecQProofs CodecRProofs IndexSeriesProofs.
+From GJ Require Import Base Kernel Series SeriesSpec Index IndexExec QTreeProofs RTreeProofs CodecQProofs CodecRProofs IndexSeriesProofs Ring RingSpec KernelSpec IndexChoice.
 
 (* quadtree built by successive inserts of items 0..n-1 (qtree.go:insert):
    a search reports exactly the items whose rectangle meets the query *)
@@ -108,6 +108,28 @@ Theorem C04_series_qtree_bytes : forall sc s q,
   series_search_bytes sc 2 s q = Some (series_search 2 s q).
 Proof. exact series_search_qtree_bytes. Qed.
 
+(* from "the same SET of candidates" to "the same answer": ringContainsSegment consumes the index of the
+   ring segment on which an end of the probe was found; at a shared vertex that index depends on the
+   order in which the index delivers candidates.  [rcs_with] is ringContainsSegment with the two
+   point-search results as parameters; for a ring whose segments meet only at their ends any two valid
+   reports (the hit flag, and for a boundary point the index of SOME segment through it) give the same
+   answer; without contact the indices are not consulted at all *)
+Theorem C04_contains_segment_is_rcs_with : forall r sg allow,
+  ring_contains_segment r sg allow =
+  rcs_with r sg allow (ring_contains_point r (fst sg) allow) (ring_contains_point r (snd sg) allow).
+Proof. exact rcs_with_model. Qed.
+Theorem C04_contains_segment_index_choice : forall r a b resA resA' resB resB',
+  meets_at_ends r ->
+  valid_res r a true resA -> valid_res r a true resA' -> valid_res r b true resB -> valid_res r b true resB' ->
+  fst (rcs_with r (a, b) true resA resB) = fst (rcs_with r (a, b) true resA' resB').
+Proof. exact rcs_choice_independent. Qed.
+Theorem C04_contains_segment_strict_ignores_indices : forall r sg resA resA' resB resB',
+  fst resA = fst resA' -> fst resB = fst resB' ->
+  fst (rcs_with r sg false resA resB) = fst (rcs_with r sg false resA' resB').
+Proof. exact rcs_strict_ignores_indices. Qed.
+Example C04_meets_at_ends_holds_somewhere : meets_at_ends (RS {| closed := true; pts := [(0,0);(4,0);(0,4)] |}).
+Proof. exact triangle_meets_at_ends. Qed.
+
 Print Assumptions C04_series_search_exact.
 Print Assumptions C04_series_qtree_bytes.
 Print Assumptions C04_qtree_search_exact.
@@ -119,3 +141,4 @@ Print Assumptions C04_rtree_search_nodup.
 Print Assumptions C04_rtree_counts.
 Print Assumptions C04_rtree_codec.
 Print Assumptions C04_rtree_built_shape.
+Print Assumptions C04_contains_segment_index_choice.
